@@ -50,7 +50,53 @@ static watch_t *find(uintptr_t a) {
   return NULL;
 }
 
+/* ---- optional tracking of every allocation (after verif_track(1)): finds a free() of an address
+ * that was freed and not handed out again since, whoever owns it ---- */
+#define TBITS 21
+#define TSIZE (1u << TBITS)
+static uintptr_t t_addr[TSIZE];
+static unsigned char t_state[TSIZE]; /* 0 empty, 1 live, 2 freed */
+static volatile int tracking;
+static int t_used, double_frees;
+static uintptr_t last_double_free;
+
+static unsigned t_slot(uintptr_t a) {
+  unsigned h = (unsigned)((a >> 4) * 2654435761u) & (TSIZE - 1);
+  for (unsigned n = 0; n < TSIZE; n++, h = (h + 1) & (TSIZE - 1)) {
+    if (t_state[h] == 0 || t_addr[h] == a) return h;
+  }
+  return TSIZE;
+}
+
+static void track_alloc(void *p) {
+  if (!tracking || !p) return;
+  lock();
+  if (t_used < (int)(TSIZE / 2)) {
+    unsigned h = t_slot((uintptr_t)p);
+    if (h < TSIZE) {
+      if (t_state[h] == 0) { t_used++; t_addr[h] = (uintptr_t)p; }
+      t_state[h] = 1;
+    }
+  }
+  unlock();
+}
+
+/* returns 1 if this free must be swallowed (double free) */
+static int track_free(void *p) {
+  if (!tracking || !p) return 0;
+  int swallow = 0;
+  lock();
+  unsigned h = t_slot((uintptr_t)p);
+  if (h < TSIZE && t_state[h] != 0 && t_addr[h] == (uintptr_t)p) {
+    if (t_state[h] == 2) { double_frees++; last_double_free = (uintptr_t)p; swallow = 1; }
+    else t_state[h] = 2;
+  }
+  unlock();
+  return swallow;
+}
+
 static void handed_out(void *p) {
+  track_alloc(p);
   if (!p || !nwatch) return;
   lock();
   watch_t *w = find((uintptr_t)p);
@@ -82,6 +128,7 @@ void free(void *p) {
   if (!p) return;
   if ((char *)p >= boot && (char *)p < boot + sizeof boot) return;
   if (!real_free) init();
+  if (track_free(p)) return;
   if (nwatch) {
     lock();
     watch_t *w = find((uintptr_t)p);
@@ -113,8 +160,22 @@ void *realloc(void *p, size_t n) {
     if (w && w->state == W_LIVE) w->realloc_count++;
     unlock();
   }
+  if (p && tracking) { /* realloc of an address that is currently freed is a use after free */
+    lock();
+    unsigned h = t_slot((uintptr_t)p);
+    int freed = h < TSIZE && t_state[h] == 2 && t_addr[h] == (uintptr_t)p;
+    if (freed) { double_frees++; last_double_free = (uintptr_t)p; }
+    unlock();
+    if (freed) return NULL;
+  }
   void *q = real_realloc(p, n);
-  if (q != p) handed_out(q);
+  if (p && tracking && (n == 0 || (q && q != p))) { /* p was released */
+    lock();
+    unsigned h = t_slot((uintptr_t)p);
+    if (h < TSIZE && t_state[h] == 1 && t_addr[h] == (uintptr_t)p) t_state[h] = 2;
+    unlock();
+  }
+  if (q != p) handed_out(q); else track_alloc(q);
   return q;
 }
 
@@ -155,4 +216,7 @@ void verif_forget(int h) {
   table[h].state = W_EMPTY;
   unlock();
 }
+void verif_track(int on) { tracking = on; }
+int verif_double_frees(void) { return double_frees; }
+uintptr_t verif_last_double_free(void) { return last_double_free; }
 int verif_present(void) { return 1; }
